@@ -169,7 +169,7 @@ func checkC06(c *core.Ctx) {
 		fo.FoiText = string(b)
 	}
 	c.Set("rule", "programs x layouts: programs are all terms with 1 construct over the full alphabet, all terms with 2 constructs over the block-owning constructs and the boundary corpus (the C01 generator); for each abstract program the printer's layout decisions are the choice points of the explorer (block indentation +2/+1/+4/+7, arm column +0/+1/+2, 0-2 blank lines and 5 kinds of own-line comments before every statement / arm / definition, 5 kinds of line ends, if on one line or several, let right-hand side / arm body / lambda body / function body on the same or the next line, break before each |> at 3 columns, 3 ends of file) and every layout with at most d non-default answers is transpiled (one fc process each); distinct = distinct (program, layout); non-trivial = at least one non-default layout answer")
-	c.Assumption("deliberately not in the layout grammar (the statement does not list them): omitting the final newline of the file, breaking a line after a binary operator, a token following a multi-line comment on the comment's last line; indentation uses spaces")
+	c.Assumption("deliberately not in the layout grammar (the statement does not list them): omitting the final newline of the file, breaking a line after a binary operator, a token following a multi-line comment on the comment's last line; the explored layouts indent with blanks - tabs and alternating tab/blank indentation occur in the whole-file styles (one layout per program and style, every line's indentation a prefix of one pattern)")
 	if c.ReplayFile != "" {
 		c06Replay(c, sc, fc)
 		return
@@ -350,7 +350,123 @@ func c06Explore(c *core.Ctx, sc *impl.Scratch, fc, dir string, pr *c06Prog, boun
 	if !baseOK {
 		return ""
 	}
+	if !c.Expired() && !c.TooManyViolations() {
+		c06FixedStyles(c, sc, fc, dir, pr, base)
+	}
 	return base
+}
+
+// c06Styles: whole-file layout styles, one layout each (not bounded by d: every point of a kind gets the same
+// answer) x the character the indentation is written with.  The indentation of every line is a prefix of one
+// fixed pattern (all blanks / all tabs / tab, blank, tab, blank ...), so "indented as far as" and "indented less
+// than" mean the same in every style.  fc measures indentation in characters; a second place that measures it
+// differently shows when decorations and tabs meet (after seed C06h).
+var c06Styles = []struct {
+	name    string
+	answers map[string]int
+	indent  int // 0 blanks, 1 tabs, 2 alternating tab / blank
+}{
+	{"tabs", nil, 1},
+	{"tabs+blank-lines", map[string]int{"blank-lines-before": 1, "blank-lines-before-def": 1}, 1},
+	{"tabs+comment-lines", map[string]int{"comment-before": 1, "comment-before-def": 1}, 1},
+	{"tabs+block-comments+line-ends", map[string]int{"comment-before": 4, "line-end": 2, "blank-lines-before": 2}, 1},
+	{"tab-blank-alternating+blank-lines+comments", map[string]int{"blank-lines-before": 1, "comment-before": 3, "line-end": 4}, 2},
+	{"blanks+blank-lines+comments+wide-indent", map[string]int{"blank-lines-before": 2, "comment-before": 4, "line-end": 3, "block-indent": 2, "arm-column": 2}, 0},
+}
+
+type c06StyleAdapter struct{ answers map[string]int }
+
+func (a c06StyleAdapter) Choose(point string, n int) int {
+	if v, ok := a.answers[point]; ok && v < n {
+		return v
+	}
+	return 0
+}
+
+func c06Reindent(src string, mode int) string {
+	if mode == 0 {
+		return src
+	}
+	lines := strings.Split(src, "\n")
+	for i, ln := range lines {
+		n := 0
+		for n < len(ln) && ln[n] == ' ' {
+			n++
+		}
+		var sb strings.Builder
+		for k := 0; k < n; k++ {
+			if mode == 1 || k%2 == 0 {
+				sb.WriteByte('\t')
+			} else {
+				sb.WriteByte(' ')
+			}
+		}
+		lines[i] = sb.String() + ln[n:]
+	}
+	return strings.Join(lines, "\n")
+}
+
+func c06FixedStyles(c *core.Ctx, sc *impl.Scratch, fc, dir string, pr *c06Prog, base string) {
+	for si, stl := range c06Styles {
+		if !c.Thorough() && strings.HasPrefix(pr.name, "core2#") && si != 1 && si != 4 {
+			// quick tier: the two-construct programs in two of the styles (tabs with blank lines; alternating with comments)
+			continue
+		}
+		p := fo.NewPrinter(c06StyleAdapter{stl.answers})
+		s := ""
+		for _, d := range pr.cs.Defs {
+			for k := p.L.Choose("blank-lines-before-def", 3); k > 0; k-- {
+				s += "\n"
+			}
+			switch p.L.Choose("comment-before-def", 3) {
+			case 1:
+				s += "// c\n"
+			case 2:
+				s += "/* c\n   c */\n"
+			}
+			for _, ln := range p.Def(d) {
+				s += ln + "\n"
+			}
+			s += "\n"
+		}
+		src := fo.Prelude + s
+		if strings.Contains(src, "`") && stl.indent != 0 {
+			// a raw string may span lines: its leading blanks are content
+			c.AddInt("styles_skipped_raw_string", 1)
+			continue
+		}
+		src = c06Reindent(src, stl.indent)
+		os.Remove(filepath.Join(dir, "gen_t.go"))
+		os.WriteFile(filepath.Join(dir, "t.fo"), []byte(src), 0o644)
+		r := impl.RunWithRetry(dir, 20*time.Second, 60*time.Second, fc, sc.PkgAllFoi(), "t.fo")
+		gen, _ := os.ReadFile(filepath.Join(dir, "gen_t.go"))
+		c.Count(1, 1, 1, 1)
+		c.DistinctNT(pr.name+" style "+stl.name, true)
+		c.Hist("layout_styles", stl.name, 1)
+		if r.Exit == 0 && string(gen) == base {
+			c.Outcome("identical")
+			continue
+		}
+		obs := "different output"
+		if r.Exit != 0 {
+			obs = "rejected: " + firstLines(r.Out(), 2)
+			c.Outcome("layout-rejected")
+		} else {
+			c.Outcome("layout-changes-output")
+			obs = "different output: " + firstDiff(base, string(gen))
+		}
+		sig := "C06:style:" + stl.name
+		if pr.cs.Name != "" {
+			sig = "C06:corpus:" + pr.cs.Name
+		} else if sh := c06Shape(pr.cs, s); sh != "" {
+			sig = "C06:shape:" + sh
+		}
+		c.Violation(sig, fmt.Sprintf("layout style %s of %s changes the result: %s\n%s", stl.name, pr.name, obs, src[len(fo.Prelude):]),
+			map[string]any{"program": pr.name, "style": stl.name, "input": map[string]string{"t.fo": src}, "expected": "same gen_t.go as the default layout", "observed": obs})
+		if c.TooManyViolations() {
+			return
+		}
+	}
 }
 
 // c06Shape recognises the program shapes of the two layout-sensitive known findings.
